@@ -437,7 +437,7 @@ func (c *MJSocialElementComponent) GetDefaultAttribute(name string) string {
 	case constants.MJMLPadding:
 		return "4px"
 	case "src":
-		if defaults, ok := getSocialNetworkDefaults(c.Node.GetAttribute("name")); ok {
+		if defaults, ok := getSocialNetworkDefaults(c.GetWrittenAttribute("name")); ok {
 			return defaults.iconURL
 		}
 		return ""
@@ -484,7 +484,7 @@ func (c *MJSocialElementComponent) getAttribute(name string) string {
 					map[string]interface{}{
 						"attr":    name,
 						"value":   parentValue,
-						"element": c.Node.GetAttribute("name"),
+						"element": c.GetWrittenAttribute("name"),
 					},
 				)
 				if name == constants.MJMLFontFamily {
@@ -501,7 +501,7 @@ func (c *MJSocialElementComponent) getAttribute(name string) string {
 					map[string]interface{}{
 						"attr":    name,
 						"value":   parentResolved,
-						"element": c.Node.GetAttribute("name"),
+						"element": c.GetWrittenAttribute("name"),
 					},
 				)
 				if name == constants.MJMLFontFamily {
@@ -519,7 +519,7 @@ func (c *MJSocialElementComponent) getAttribute(name string) string {
 
 	// 5. Check platform-specific defaults (for background-color)
 	if name == constants.MJMLBackgroundColor {
-		if defaults, ok := getSocialNetworkDefaults(c.Node.GetAttribute("name")); ok {
+		if defaults, ok := getSocialNetworkDefaults(c.GetWrittenAttribute("name")); ok {
 			return defaults.backgroundColor
 		}
 	}
@@ -558,7 +558,7 @@ func (c *MJSocialElementComponent) Render(w io.StringWriter) error {
 	alt := c.getAttribute("alt")
 
 	// Handle special sharing URL generation for known platforms
-	nameAttr := c.Node.GetAttribute("name")
+	nameAttr := c.GetWrittenAttribute("name")
 	if href != "" {
 		if defaults, ok := getSocialNetworkDefaults(nameAttr); ok && defaults.shareURLTemplate != "" {
 			hrefLower := strings.ToLower(href)
@@ -871,7 +871,7 @@ func (c *MJSocialElementComponent) Render(w io.StringWriter) error {
 		"content-selection",
 		"Selected text content source",
 		map[string]interface{}{
-			"element_name":   c.Node.GetAttribute("name"),
+			"element_name":   c.GetWrittenAttribute("name"),
 			"plain_text":     c.Node.Text,
 			"mixed_content":  textContent,
 			"has_children":   len(c.Node.Children) > 0,
